@@ -138,12 +138,12 @@ func spawnRunItems(req *runItemsReq, env []string) ([]ItemResult, error) {
 // ---------------------------------------------------------------- cases
 
 type HistCase struct {
-	Kind    string `json:"kind"` // history | repeat | binary
-	Items   []Item `json:"items"`
-	Order   []int  `json:"order"`             // history: execution order (indices into Items)
-	K       int    `json:"k,omitempty"`       // repeat: in-process repetitions
-	Fresh   int    `json:"fresh,omitempty"`   // repeat: additional fresh processes
-	OMode   string `json:"o_mode,omitempty"`  // binary
+	Kind  string `json:"kind"` // history | repeat | binary
+	Items []Item `json:"items"`
+	Order []int  `json:"order"`            // history: execution order (indices into Items)
+	K     int    `json:"k,omitempty"`      // repeat: in-process repetitions
+	Fresh int    `json:"fresh,omitempty"`  // repeat: additional fresh processes
+	OMode string `json:"o_mode,omitempty"` // binary
 }
 
 func runHistCase(c *HistCase, keep bool) Outcome {
@@ -429,10 +429,11 @@ func registerC10() {
 			}
 			return c
 		},
-		Run:       func(c any, keep bool) Outcome { return runHistCase(c.(*HistCase), keep) },
-		New:       func() any { return &HistCase{} },
-		NoRecheck: true,
+		Run:         func(c any, keep bool) Outcome { return runHistCase(c.(*HistCase), keep) },
+		New:         func() any { return &HistCase{} },
+		NoRecheck:   true,
 		ShrinkEvals: 120,
+		Simplify:    simplifyHist,
 	}
 	repeat := &Workload{
 		Name:  "repeat",
@@ -440,9 +441,9 @@ func registerC10() {
 		Gen: func(i int, t *Tape, tier string) any {
 			return &HistCase{Kind: "repeat", Items: []Item{genItem(t)}, K: 16, Fresh: 4}
 		},
-		Run:       func(c any, keep bool) Outcome { return runHistCase(c.(*HistCase), keep) },
-		New:       func() any { return &HistCase{} },
-		NoRecheck: true,
+		Run:         func(c any, keep bool) Outcome { return runHistCase(c.(*HistCase), keep) },
+		New:         func() any { return &HistCase{} },
+		NoRecheck:   true,
 		ShrinkEvals: 120,
 	}
 	binary := &Workload{
@@ -451,15 +452,15 @@ func registerC10() {
 		Gen: func(i int, t *Tape, tier string) any {
 			return &HistCase{Kind: "binary", Items: []Item{genItem(t)}, OMode: []string{"", "-", "file"}[t.Draw(3)]}
 		},
-		Run:       func(c any, keep bool) Outcome { return runHistCase(c.(*HistCase), keep) },
-		New:       func() any { return &HistCase{} },
-		NoRecheck: true,
+		Run:         func(c any, keep bool) Outcome { return runHistCase(c.(*HistCase), keep) },
+		New:         func() any { return &HistCase{} },
+		NoRecheck:   true,
 		ShrinkEvals: 120,
 	}
 	register(&Property{
 		ID:    "C10",
 		Level: "exploration",
-		Rule: "seeded items (program, selectors, input) that print, iterate, serialise and mutate objects with 5-8 keys, use every prototype, end in every error kind and hit the limits; (repeat) each item executed 16 times in one fresh process and once in each of 4 further fresh processes, all results byte-identical; (histories) seeded sequences of 10-60 executions over 3-8 distinct items in one fresh process, each execution compared with the item run alone as the first run of a fresh process; (binary-env) the real binary three times under different cwd contents, TZ, LANG, GOMAXPROCS, GOGC. Result = stdout bytes, root JSON, error kind, message, line and column. Distinct = distinct program-text shape (history: tuple of them); non-trivial = every executed case.",
+		Rule:  "seeded items (program, selectors, input) that print, iterate, serialise and mutate objects with 5-8 keys, use every prototype, end in every error kind and hit the limits; (repeat) each item executed 16 times in one fresh process and once in each of 4 further fresh processes, all results byte-identical; (histories) seeded sequences of 10-60 executions over 3-8 distinct items in one fresh process, each execution compared with the item run alone as the first run of a fresh process; (binary-env) the real binary three times under different cwd contents, TZ, LANG, GOMAXPROCS, GOGC. Result = stdout bytes, root JSON, error kind, message, line and column. Distinct = distinct program-text shape (history: tuple of them); non-trivial = every executed case.",
 		Assumptions: []string{
 			"Go's map iteration order cannot be seeded; an order dependence on an object with n>=5 keys survives 20 executions with probability well below 1e-6 per item, and there are hundreds of items (DESIGN.md 5.10)",
 			"replaying a nondeterminism violation reproduces it with overwhelming probability, not certainty: the scheduler being replayed is the Go runtime's",
